@@ -53,6 +53,7 @@ DEFAULT_PROFILE = dict(
     p_dynamic=15,
     p_delay=15,
     p_cumulative_in_select=8,  # a selection may list a cumulative worker (test_cumulative_select_worker_1)
+    p_group_precedence=0,  # % of specs with a TaskPrecedence whose operand(s) are task groups ("GroupPrecedence")
 )
 
 
@@ -307,6 +308,42 @@ def gen_task_constraint(g, ty, spec, H):
     else:
         raise ValueError(ty)
     return c
+
+
+GROUP_TYPES = ("UnorderedTaskGroup", "OrderedTaskGroup")
+
+
+def gen_group_precedence(g, spec, H):
+    """TaskPrecedence with a task group as `task_before` and/or `task_after` (the field type of the library allows it,
+    test_group_of_tasks.py uses it).  Returns the new constraints (missing groups first).  The groups concerned and the
+    precedence stay top-level and mandatory, and every group is the operand of one precedence only, so that the window
+    unknowns of a group are constrained by its own members and by that single precedence (exact reference rule)."""
+    names = [t["name"] for t in spec["tasks"]]
+    used = {c.get(k) for c in spec["constraints"] if c["type"] == "GroupPrecedence" for k in ("gbefore", "gafter")}
+    free = [c["name"] for c in spec["constraints"] if c["type"] in GROUP_TYPES and c["name"] not in used and not c.get("optional")]
+    out = []
+
+    def group():
+        if free and g.chance(50):
+            n = g.pick(free)
+            free.remove(n)
+            return n
+        c = gen_task_constraint(g, g.pick(GROUP_TYPES), spec, H)
+        out.append(c)
+        return c["name"]
+
+    shape = g.pick(["gt", "gt", "tg", "tg", "gg"])
+    c = {"type": "GroupPrecedence", "name": g.name("c"), "offset": g.pick([0, 0, 1, 2]), "kind": g.pick(["lax", "strict", "tight"])}
+    if shape[0] == "g":
+        c["gbefore"] = group()
+    else:
+        c["before"] = g.pick(names)
+    if shape[1] == "g":
+        c["gafter"] = group()
+    else:
+        c["after"] = g.pick(names)
+    out.append(c)
+    return out
 
 
 def gen_cond(g, spec, H, exclude_task=None):
@@ -716,6 +753,9 @@ def specs(draw, prof=None):
         if c is not None:
             spec["constraints"].append(c)
 
+    if prof.get("p_group_precedence") and g.chance(prof["p_group_precedence"]):
+        spec["constraints"].extend(gen_group_precedence(g, spec, H))
+
     if prof.get("p_interleave"):
         # declare some resource constraints between two assignments of their resource
         sel = {s_["name"]: s_ for s_ in spec["selects"]}
@@ -735,7 +775,8 @@ def specs(draw, prof=None):
         spec["constraints"].append(gen_toplevel_formula(g, spec, H, prof.get("fol_depth", 2), prof.get("fol_leaves", SIMPLE_LEAVES)))
 
     if prof["optional_constraints"]:
-        optable = [c for c in spec["constraints"] if c["type"] not in ("TaskUnloadBuffer", "TaskLoadBuffer")]
+        in_gp = {c.get(k) for c in spec["constraints"] if c["type"] == "GroupPrecedence" for k in ("gbefore", "gafter")}
+        optable = [c for c in spec["constraints"] if c["type"] not in ("TaskUnloadBuffer", "TaskLoadBuffer", "GroupPrecedence") and c["name"] not in in_gp]
         marked = []
         for c in optable:
             if g.chance(prof["optional_constraints"]):
@@ -746,6 +787,25 @@ def specs(draw, prof=None):
             spec["constraints"].append(
                 {"type": "ForceApplyNOptionalConstraints", "name": g.name("c"), "cs": cs, "n": g.int(1, len(cs)), "kind": g.pick(["exact", "min", "max"])}
             )
+        if marked and g.chance(prof.get("p_nested_force_apply", 0)):
+            # a force-apply rule used as an operand of a connective (it is a Constraint like any other)
+            cs = g.subset(marked, 1, 3)
+            fa = {"type": "ForceApplyNOptionalConstraints", "name": g.name("c"), "cs": cs, "n": g.int(1, len(cs)), "kind": g.pick(["exact", "min", "min", "max"])}
+            ty = g.pick(FOL_TYPES)
+            node = {"type": ty, "name": g.name("c")}
+            cd = gen_cond(g, spec, H)
+            if ty == "Not":
+                node["c"] = fa
+            elif ty in ("And", "Or"):
+                node["cs"] = [fa] + [gen_leaf(g, spec, H) for _ in range(g.int(0, 1))]
+            elif ty == "Xor":
+                node["c1"], node["c2"] = (fa, gen_leaf(g, spec, H)) if g.chance(50) else (gen_leaf(g, spec, H), fa)
+            elif ty == "Implies":
+                node["cond"], node["cs"] = cd, [fa]
+            else:
+                node["cond"] = cd
+                node["then"], node["else"] = ([fa], [gen_leaf(g, spec, H)]) if g.chance(50) else ([gen_leaf(g, spec, H)], [fa])
+            spec["constraints"].append(node)
 
     itypes = [t for t in (prof.get("indicator_types") or INDICATOR_TYPES) if t not in excl]
     seen_builtin = set()
